@@ -67,8 +67,8 @@ def shape_predicate(e):
             found.add("min-max-node")
         if t == "if":
             found.add("conditional-expression")
-        if t == "call" and any(a[0] == "if" for a in j[2][:-1] + ([j[2][-1]] if j[3] else [])):
-            found.add("conditional-in-argument-list")
+        if t == "call" and any(a[0] == "if" for a in (list(j[2]) + [v for _k, v in j[3]])[:-1]):
+            found.add("conditional-in-argument-list")      # any argument (positional or keyword value) that a comma follows
         if t in ("min", "max") and any(a[0] == "if" for a in j[1][:-1]):
             found.add("conditional-in-argument-list")
         if t == "not":
